@@ -105,10 +105,14 @@ def behaviour_runs(chk, n, streams=None):
     """scripted API behaviours × configurations: the reference predicate on the real stream"""
     from schemathesis.engine.phases import PhaseName
     rng = chk.rng
-    for _ in range(n):
+    for j in range(n + 1):
         n_ops = rng.randint(1, 4)
         bad = {f"/op{i}": rng.choice([None, 1, 2, 3]) for i in range(n_ops)}   # fails from the k-th call on
         slow = {f"/op{i}" for i in range(n_ops) if rng.random() < 0.25}            # answers after the consumer's poll timeout
+        # the failure that has to be reported may be the very one that exhausts --max-failures
+        mf = rng.choice([None, None, None, 1, 2])
+        if j == 0:      # every run of the check: one operation, failing from its first call, limit 1
+            n_ops, bad, slow, mf = 1, {"/op0": 1}, set(), 1
 
         def behaviour(p, k):
             if p in slow:
@@ -116,14 +120,15 @@ def behaviour_runs(chk, n, streams=None):
                 _t.sleep(0.25)
             return 500 if bad.get(p) is not None and k >= bad[p] else 200
         app = E.make_app(behaviour)
-        workers = rng.choice([1, 1, 2, 3])
+        workers = rng.choice([1, 1, 2, 3]) if mf is None else 1
         phases = rng.choice([[PhaseName.FUZZING], [PhaseName.COVERAGE, PhaseName.FUZZING], [PhaseName.COVERAGE],
                              [PhaseName.EXAMPLES, PhaseName.FUZZING]])
         cof = rng.random() < 0.3
+        chk.feature(f"behaviour-max-failures:{mf}")
         with E.Server(app) as srv:
             schema = E.load_schema(srv.url, n_ops)
             cfg = E.engine_config(phases=phases, workers=workers, max_examples=rng.choice([2, 4]), continue_on_failure=cof,
-                                  seed=rng.randint(1, 10**6), unique_inputs=rng.random() < 0.2)
+                                  seed=rng.randint(1, 10**6), unique_inputs=rng.random() < 0.2, max_failures=mf)
             evs = E.run_engine(schema, cfg)
         ps = E.plan_canon(evs)
         exit_code = E.exit_code_of(evs)
@@ -150,14 +155,14 @@ def behaviour_runs(chk, n, streams=None):
                                   "with the request/response that caused it",
                                   {"label": ev.label, "checks": {k: [(c.name, c.status.value) for c in v] for k, v in rec.checks.items()},
                                    "interactions": list(rec.interactions)})
-        key = [n_ops, bad, workers, [p.name for p in phases], cof]
+        key = [n_ops, bad, workers, [p.name for p in phases], cof, mf]
         chk.case("behaviour:engine-run", key=key, nontrivial=True,
                  sample={"bad_from_call": bad, "workers": workers, "phases": [p.name for p in phases], "exit": exit_code,
                          "failing_scenarios": len(failing)})
         chk.feature(f"behaviour-workers:{workers}")
         chk.feature(f"behaviour-exit:{exit_code}")
         replay = {"bad_from_call": bad, "workers": workers, "phases": [p.name for p in phases], "continue_on_failure": cof,
-                  "stream": ps, "exit": exit_code}
+                  "max_failures": mf, "stream": ps, "exit": exit_code}
         # problem => reported: phase of a failing scenario is failed/errored, exit != 0
         for f in failing:
             pf = next((e for e in ps if e["k"] == "PhaseFinished" and e["phase"] == f["phase"]), None)
@@ -167,7 +172,7 @@ def behaviour_runs(chk, n, streams=None):
         if any(e["k"] == "NonFatalError" for e in ps) and exit_code == 0:
             chk.violation("C05:exit-code:NonFatalError-with-exit-0", "NonFatalError delivered but exit code 0", replay)
         # exit 0 => every operation closed in every executed unit phase (or explicitly skipped)
-        if exit_code == 0:
+        if exit_code == 0 and mf is None:
             for ph in [p.name for p in phases if p.name != "STATEFUL_TESTING"]:
                 fin = [e for e in ps if e["k"] == "ScenarioFinished" and e["phase"] == ph]
                 if len(fin) != n_ops:
